@@ -14,6 +14,13 @@ for name in "$@"; do
   rc=$?
   classes=$(echo "$out" | grep -E "^violation class" | sed -E "s/violation class '([^']*)'.*/\1/" | head -4 | tr '\n' ';')
   first=$(echo "$out" | grep -E "^violation class" | head -1 | sed -E 's/.*first in run ([0-9]+).*/\1/')
-  echo "$name $prop tests=$tests check_exit=$rc first_run=$first classes=[$classes]" >> "$log"
+  demo="none"
+  if [ -f "$d/demo.sh" ]; then
+    mutbin=/verif/.build/target-$(python3 -c "import hashlib,sys;print(hashlib.sha256(sys.argv[1].encode()).hexdigest()[:10])" "$wt")/release/ucg
+    (cd "$d" && bash ./demo.sh /verif/.build/target/release/ucg >/dev/null 2>&1); db=$?
+    (cd "$d" && bash ./demo.sh "$mutbin" >/dev/null 2>&1); dm=$?
+    demo="base=$db,changed=$dm"
+  fi
+  echo "$name $prop tests=$tests demo=[$demo] check_exit=$rc first_run=$first classes=[$classes]" >> "$log"
 done
 git -C "$wt" checkout -q -- .
